@@ -73,7 +73,7 @@ def xof_part(ctx):
             ctx.run_vh("xof", ["-in", bh, "-bindings", 1], binary=vh)
             os.remove(bh)
     # 3. exhaustive deeper behaviours (6 operations incl. the first New) over a 2-class chunk menu drawn from the seed
-    c2 = rnd.sample([c for c in CHUNKS if c], 2)
+    c2 = rnd.sample([c for c in CHUNKS if c], 1 if q else 2)   # quick: one class (all class pairs are in run 2)
     s1 = rnd.sample(SEEDS, 1)
     bh = _gen(ctx, "XOF", xof_consts(s1, s1, c2, 5 if q else 6), "C19_xof_deep")
     _all_ops(ctx.run_vh("xof", ["-in", bh, "-bindings", 1 if q else 2], binary=vh))
